@@ -73,7 +73,7 @@ TNext ==
   \/ IsEvent("KEval") /\ AKEval(E.k, E.ready, E.rdy, E.inflight, E.paused, l)
   \/ IsEvent("KRdyBegin") /\ AKRdyBegin(E.k, E.n)
   \/ IsEvent("KRdyEnd") /\ AKRdyEnd(E.k, E.n)
-  \/ IsEvent("KRdyDone") /\ AKRdyDone(E.k, l, E.now)
+  \/ IsEvent("KRdyDone") /\ AKRdyDone(E.k, l, E.now, E.sig)
   \/ IsEvent("Send") /\ ASend(E.k, E.c, E.id, E.att, E.crc, E.len, E.ts)
   \/ IsEvent("KCmd") /\ AKCmd(E.k, E.cmd, E.arg, E.err)
   \/ IsEvent("HRecv") /\ (IF E.k = -1 THEN UNCHANGED vars ELSE AHRecv(E.k, E.id, E.att, E.crc, E.len, E.ts))
